@@ -48,6 +48,12 @@ func Main() {
 	if job.Check == "C10-hostile-child" {
 		os.Exit(HostileChild(job.Shard, job.NShards, job.Out))
 	}
+	if job.Check == "debug-path" {
+		var ch []int
+		json.Unmarshal([]byte(job.Out), &ch)
+		debugSchedulePath(job.Part, ch)
+		os.Exit(0)
+	}
 	if job.Check == "C10-hostile-input" {
 		fmt.Printf("%x\n", hostileInput(job.Shard))
 		os.Exit(0)
@@ -238,4 +244,31 @@ func xspecsFor(check, tier string) []*XSpec {
 		return c07Specs(tier)
 	}
 	return nil
+}
+
+// debugSchedulePath prints, for a scenario, the choice points along a given path (development aid).
+func debugSchedulePath(name string, choices []int) {
+	var all []*Scenario
+	all = append(all, c02bScenarios()...)
+	for _, sc := range all {
+		if sc.Name != name {
+			continue
+		}
+		for cut := 1; cut <= len(choices); cut++ {
+			if cut != 1 && choices[cut-1] == 0 {
+				continue
+			}
+			o := sc.exec(choices[:cut], nil, false)
+			fmt.Printf("prefix len %d: points=%d aborted=%q mm=%v\n", cut, len(o.res.Points), o.res.Aborted, o.mm != nil)
+			pre := 0
+			for i, p := range o.res.Points {
+				if i >= cut-2 && i <= cut+8 {
+					fmt.Printf("   point %d: tid %d kind %s N=%d curEnabled=%v chosen=%d pre=%d\n", i, p.Tid, p.Kind, p.N, p.CurEnabled, p.Chosen, pre)
+				}
+				if p.Chosen != 0 && p.CurEnabled {
+					pre++
+				}
+			}
+		}
+	}
 }
